@@ -161,11 +161,21 @@ def worker(ctx, job):
             if temp == "index-only":
                 # a cache that holds nothing but raw index entries (public index::insert)
                 srv.call({"op": "index_insert", "cache": real_cache, "key": key if key is not None else "only", "opts": {"integrity": sri(OLD), "time": "1", "size": 7}})
-            if temp == "warm":
+            if temp in ("warm", "damaged-content", "truncated-content"):
                 wr.do_write(srv, real_cache, side="s", entry="oneshot", key="bystander", n=3, tag=1)
                 wr.do_write(srv, real_cache, side="s", entry="hash", n=OLD["n"], tag=OLD["tag"])
                 if key is not None:
                     wr.do_write(srv, real_cache, side="s", entry="oneshot", key=key, n=OLD["n"], tag=OLD["tag"])
+                if temp != "warm":
+                    # the stored bytes no longer match their address: a failing check is still a read, not a repair or an eviction
+                    cp_ = os.path.join(real_cache, ref.content_rel(sri(OLD)))
+                    with open(cp_, "r+b") as fh:
+                        if temp == "damaged-content":
+                            b_ = fh.read(1)
+                            fh.seek(0)
+                            fh.write(bytes([b_[0] ^ 0x20]))
+                        else:
+                            fh.truncate(OLD["n"] - 2)
             if op in EXTRACT and temp == "warm" and job.get("dest_exists"):
                 # the destination already exists: as an earlier extraction of the same entry (a hard link to the same
                 # content) or as an unrelated file
@@ -256,6 +266,11 @@ def worker(ctx, job):
                 after = fsutil.snapshot(real_cache)
                 if fsutil.canon(after) != fsutil.canon(init):
                     V.violation(res, "monitor:%s/%s:read-only-call-changed-tree" % (op, side), "cache tree differs after a read-only call", replay)
+            elif op in EXTRACT:
+                # extractions write their destination only: the cache tree is read
+                after = fsutil.snapshot(real_cache)
+                if fsutil.canon(after) != fsutil.canon(init):
+                    V.violation(res, "monitor:%s/%s:extraction-changed-cache-tree" % (op, side), "cache tree differs after an extraction (cache state %s)" % temp, replay)
             after_out = fsutil.snapshot(outside)
             if after_out is not None:
                 after_out.pop("dest", None)
@@ -292,6 +307,9 @@ def main(tier, seed=0):
             jobs.append({"flavour": flavour, "side": side, "temp": "warm", "rootform": "abs", "ops": sorted(EXTRACT), "keys": keys[:2], "dest_exists": de})
         jobs.append({"flavour": flavour, "side": side, "temp": "tmp-blocked", "rootform": "abs", "ops": ["write", "write_with_algo", "writer", "writer_dropped", "writer_create", "link_to"], "keys": keys[:3]})
         jobs.append({"flavour": flavour, "side": side, "temp": "tmp-blocked", "rootform": "abs", "ops": ["write_hash", "link_to_hash", "list", "read_hash"], "keys": []})
+        for dmg in ("damaged-content", "truncated-content"):
+            jobs.append({"flavour": flavour, "side": side, "temp": dmg, "rootform": "abs", "ops": ["read", "stream", "metadata", "copy", "copy_unchecked", "hard_link", "reflink"], "keys": keys[:2]})
+            jobs.append({"flavour": flavour, "side": side, "temp": dmg, "rootform": "abs", "ops": ["read_hash", "stream_hash", "exists", "list", "copy_hash", "hard_link_hash", "reflink_hash"], "keys": []})
         jobs.append({"flavour": flavour, "side": side, "temp": "dangling-link", "rootform": "abs", "ops": ["link_to", "write", "read"], "keys": keys[:2]})
         jobs.append({"flavour": flavour, "side": side, "temp": "dangling-link", "rootform": "abs", "ops": ["link_to_hash", "write_hash", "read_hash", "exists"], "keys": []})
     if quick:
@@ -312,7 +330,7 @@ def main(tier, seed=0):
         pool.join()
     agg["extra"] = {"operations": len(KEYED) + len(UNKEYED), "keys": len(keys), "root_forms": ["abs"] if quick else ["abs", "rel", "symlink"]}
     return R.finish(PROP, tier, agg, merr, time.time() - t0, level="exploration",
-                    rule="case = (flavour, operation, hostile key, cache root form [absolute/relative/symlinked], cold/warm cache); one evaluation = one real process "
+                    rule="case = (flavour, operation, hostile key, cache root form [absolute/relative/symlinked], cold/warm/index-only/tmp-blocked/dangling-link/damaged-content/truncated-content cache); one evaluation = one real process "
                          "monitored at every path-taking or descriptor-writing system call between its begin and end markers; distinct = distinct tuples",
                     technique="exhaustive operation x key enumeration with complete system-call effect monitoring under ptrace (fsx monitor mode)",
                     assumptions=["path arguments are resolved lexically plus /proc/<tid>/fd and cwd; symlinks inside the cache are not followed by the monitor",
